@@ -25,6 +25,9 @@ type Ledger struct {
 	Functions   []string      `json:"functions"`
 	Obligations []LedgerEntry `json:"obligations"`
 	Lemmas      []string      `json:"lemmas,omitempty"`
+	// LoopKeys: for every verified function with two or more loops, the source
+	// text of its loop headers in source order (see loopRemap)
+	LoopKeys map[string][]string `json:"loop_keys,omitempty"`
 }
 
 type KnownFinding struct {
@@ -58,6 +61,14 @@ func runCheck(o checkOpts) int {
 		return 2
 	}
 	loadS := time.Since(t0).Seconds()
+	if !o.writeLedger {
+		if b, err := os.ReadFile(filepath.Join(o.verif, "ledger", o.prop+".json")); err == nil {
+			var l0 Ledger
+			if json.Unmarshal(b, &l0) == nil {
+				e.ledgerLoopKeys = l0.LoopKeys
+			}
+		}
+	}
 	var results []*FuncResult
 	var pkgs []string
 	for p := range e.specs {
@@ -170,6 +181,14 @@ func runCheck(o checkOpts) int {
 			}
 		}
 		sort.Slice(l.Obligations, func(i, j int) bool { return l.Obligations[i].Name < l.Obligations[j].Name })
+		l.LoopKeys = map[string][]string{}
+		for fn := range e.loopCache {
+			if len(e.loopCache[fn]) >= 2 {
+				if hs := e.loopHeaders(fn); len(hs) == len(e.loopCache[fn]) {
+					l.LoopKeys[fn.String()] = hs
+				}
+			}
+		}
 		os.MkdirAll(filepath.Dir(ledgerPath), 0o755)
 		b, _ := json.MarshalIndent(l, "", " ")
 		os.WriteFile(ledgerPath, append(b, '\n'), 0o644)
@@ -372,11 +391,24 @@ func runCheck(o checkOpts) int {
 		violations++
 		exit = 1
 	}
-	if exit == 0 && len(undecided) > 0 {
-		exit = 2
-	}
 	for _, u := range undecided {
 		fmt.Printf("UNDECIDED property=%s %s\n", o.prop, u)
+	}
+	if exit == 0 && len(undecided) > 0 {
+		// The code of a function under contract has left the verifier's subset, its
+		// contract no longer matches the source (a renamed local, a moved statement a
+		// hook is anchored on), or an obligation of the ledger is no longer generated.
+		// That is "not proved", not a violation: nothing that was explored (the other
+		// functions, the bounded fall-back drivers) contradicts the property, so the
+		// exit status stays 0; the evidence file of this run is downgraded from proof
+		// and lists the undecided functions.
+		ran := 0
+		for _, d := range drv {
+			if d.Ran {
+				ran++
+			}
+		}
+		fmt.Printf("NOT-PROVED property=%s %d function(s)/obligation(s) undecided on this tree (contract maintenance needed); no violation found in what was explored; bounded fall-back drivers run: %d\n", o.prop, len(undecided), ran)
 	}
 	// known findings that no longer fail must be re-classified by a human, not silently
 	for _, kf := range kfs {
@@ -444,7 +476,16 @@ func runCheck(o checkOpts) int {
 	trusted = append(trusted, sortedKeys(e.trustedUsed)...)
 	assumptions := append([]string{}, notes...)
 	assumptions = append(assumptions, "integers: mathematical Int with exact wrap-around (wrapN) on every arithmetic result; floats: abstract sort with IEEE comparison semantics (NaN flag + monotone order key, +0 == -0); float arithmetic and int<->float conversions are uninterpreted functions (congruence only)")
+	pkgsInPlay := map[string]bool{}
+	for _, r := range results {
+		if i := strings.Index(r.Func, "."); i > 0 {
+			pkgsInPlay[r.Func[:i]] = true
+		}
+	}
 	for _, ps := range e.specs {
+		if !pkgsInPlay[pkgBase(ps.Pkg)] {
+			continue // axioms of a package none of whose functions this property puts under contract
+		}
 		for _, lm := range ps.Lemmas {
 			if lm.Axiom && (len(lm.Props) == 0 || contains(lm.Props, o.prop)) {
 				assumptions = append(assumptions, "axiom "+lm.Name+": "+lm.Expr.String())
@@ -497,11 +538,17 @@ func runCheck(o checkOpts) int {
 	for k, v := range e.extraCoverage[o.prop] {
 		cov[k] = v
 	}
+	level := "proof"
+	if len(undecided) > 0 {
+		level = "other"
+		cov["not_proved"] = true
+		cov["explanation"] = fmt.Sprintf("NOT A PROOF ON THIS TREE: %d function(s)/obligation(s) under contract are undecided (listed under undecided_functions); the remaining obligations were discharged and the bounded fall-back drivers (if any) were run", len(undecided))
+	}
 	ev := map[string]interface{}{
 		"property_id": o.prop,
 		"tier":        o.tier,
 		"seed":        o.seed,
-		"level":       "proof",
+		"level":       level,
 		"coverage":    cov,
 		"assumptions": assumptions,
 		"wall_s":      round2(time.Since(t0).Seconds()),
